@@ -15,6 +15,7 @@ import Abmarl.Model.AttacksDriver
 import Abmarl.Model.SuperDriver
 import Abmarl.Model.CommDriver
 import Abmarl.Model.WrappersDriver
+import Abmarl.Model.GridSimDriver
 /-! Line-protocol driver: one request per line on stdin, one reply per line on stdout. -/
 open Abmarl
 
@@ -53,6 +54,8 @@ def dispatch (line : String) : String :=
       | "wexcl" => WrappersDriver.handleExcl args
       | "wactor" => WrappersDriver.handleActor args
       | "wunwrap" => WrappersDriver.handleUnwrap args
+      | "ghist" => GridSimDriver.handleHist args
+      | "gwinv" => GridSimDriver.handleWInv args
       | "ping" => some (.list (.atom "pong" :: args))
       | _ => none
     match r with
